@@ -22,7 +22,8 @@ class NetCheck(check.Check):
             "policies; distinct = digest(recipe, options); non-trivial = compiled and at least one NPU kernel operation executed")
 
     def __init__(self):
-        self.rule = self.rule % self.profile
+        if "%s" in self.rule:
+            self.rule = self.rule % self.profile
 
     def own(self, v):
         return v.get("prop") in (self.props or (self.pid,))
@@ -176,3 +177,171 @@ class C12(NetCheck):
 
     def profile_for(self, r):
         return r.choice(["cpu_mix", "cpu_mix", "mixed"])
+
+
+# ======================================================================================================== C11
+NEVER_NPU = {"CUSTOM", "DEQUANTIZE", "FLOOR", "CEIL", "NEG", "SIN", "GATHER", "CAST", "ROUND"}
+
+
+def _freeze(v):
+    import numpy as np
+
+    if isinstance(v, np.ndarray):
+        return tuple(v.tolist())
+    if isinstance(v, (list, tuple)):
+        return tuple(_freeze(x) for x in v)
+    if isinstance(v, dict):
+        return tuple(sorted((k, _freeze(x)) for k, x in v.items()))
+    return v
+
+
+def _opt_norm(o):
+    """options table as a comparable value (field-wise through the schema table).  A table whose fields all have their
+    schema default is the same value as an absent table for every flatbuffer reader, so both normalise to None."""
+    from .tflschema import TABLES
+
+    if o is None:
+        return None
+    name, d = o
+    defaults = {f[1]: f[3] for f in TABLES.get(name, [])}
+    items = []
+    for k, v in d.items():
+        if v is None:
+            continue
+        fv = _freeze(v)
+        dv = defaults.get(k)
+        if not isinstance(fv, tuple) and (fv == dv or (isinstance(fv, bool) and fv == bool(dv))):
+            continue
+        items.append((k, fv))
+    return (name, tuple(sorted(items))) if items else None
+
+
+def _tensor_sig(m, ti):
+    if ti < 0:
+        return ("absent",)
+    t = m.tensors[ti]
+    q = (tuple(t.scale), tuple(t.zp), t.qdim) if t.scale else None
+    if t.data is not None:
+        import hashlib
+
+        return ("const", tuple(t.shape), t.type, q, hashlib.sha256(t.data).hexdigest()[:16])
+    return ("var", t.name, tuple(t.shape), t.type, q)
+
+
+def _op_sig(m, op, with_names=True):
+    """operator as a comparable value; operand wiring is compared up to tensor renumbering/renaming: constants by content,
+    variables by shape, type and quantisation"""
+    def ts(i):
+        s_ = _tensor_sig(m, i)
+        if not with_names and s_[0] == "var":
+            return ("var",) + s_[2:]
+        return s_
+
+    return (op.code, op.custom, op.version, _opt_norm(op.options), op.custom_options, tuple(ts(i) for i in op.inputs), tuple(ts(i) for i in op.outputs))
+
+
+class C11(NetCheck):
+    pid = "C11"
+    n_swarm = {"quick": 0, "thorough": 0}
+    extremes = {"quick": False, "thorough": False}
+    quick = dict(cases=3000, budget=90, timeout=120)
+    thorough = dict(cases=60000, budget=1200, timeout=300)
+    rule = ("netgen recipes biased to CPU/NPU mixes (third-party custom ops, float islands, GATHER/TRANSPOSE, unsupported strides, several outputs, duplicated "
+            "tensor names) x option draw; source and output files are both loaded with the plain flatbuffer parser and the output also with Vela's own "
+            "reader; distinct = digest(recipe, options); non-trivial = compiled with >= 1 operator left on the CPU or >= 1 Ethos-U operator")
+    components = {"real": ["whole compiler incl. tflite_reader / tflite_writer / extract_npu_subgraphs", "model_reader.read_model on the output file"],
+                  "model": ["plain flatbuffer parser (verif.fbs)", "runtime peer executing the operator list in file order (tag level)"], "stub": []}
+
+    def profile_for(self, r):
+        return r.choice(["cpu_mix", "cpu_mix", "mixed"])
+
+    def post(self, desc, res, out):
+        from . import artefact
+
+        src = artefact.load(res["src"])
+        om = res["model"]
+        layers = [L["op"] for L in desc["recipe"]["layers"]]
+
+        def V(oracle, **kw):
+            out["viol"].append(dict(prop="C11", oracle=oracle, layers=layers, sig=dict(oracle=oracle, what=kw.get("what")), **kw))
+
+        # 1. interface: order, names, shapes, types, quantisation
+        for what, a, b in (("inputs", src.inputs, om.inputs), ("outputs", src.outputs, om.outputs)):
+            if len(a) != len(b):
+                V("interface_count", what=what, src=len(a), out=len(b))
+                continue
+            for k, (i, j) in enumerate(zip(a, b)):
+                sa, sb = _tensor_sig(src, i), _tensor_sig(om, j)
+                if sa != sb:
+                    V("interface_differs", what=what, index=k, src=str(sa)[:200], out=str(sb)[:200])
+        # 2. CPU-resident operators verbatim, exactly once
+        dup = desc["recipe"].get("dup_names", False)
+        cpu_out = [o for o in om.ops if not (o.code == artefact.CUSTOM and o.custom == "ethos-u")]
+        src_sigs = {}
+        for o in src.ops:
+            src_sigs.setdefault(_op_sig(src, o, False), []).append(o)
+        used = set()
+        for o in cpu_out:
+            s = _op_sig(om, o, False)
+            cands = [x for x in src_sigs.get(s, []) if x.idx not in used]
+            if not cands:
+                # find the closest source operator to say what changed
+                same_code = [x for x in src.ops if (x.code, x.custom) == (o.code, o.custom)]
+                what = "no_such_operator" if not same_code else "operator_changed"
+                detail = None
+                if same_code:
+                    x = same_code[0]
+                    sx = _op_sig(src, x, False)
+                    names = ("code", "custom", "version", "options", "custom_options", "inputs", "outputs")
+                    detail = [n for n, p, q_ in zip(names, sx, s) if p != q_]
+                V("cpu_operator_not_verbatim", what=what, opname=o.name, changed=detail)
+            else:
+                used.add(cands[0].idx)
+        # every source operator that can never run on the NPU must still be there
+        out_names = {}
+        for o in cpu_out:
+            out_names[(o.code, o.custom)] = out_names.get((o.code, o.custom), 0) + 1
+        for o in src.ops:
+            kind = o.name.split(":")[0]
+            if kind in NEVER_NPU and o.idx not in used:
+                if self._contributes(src, o):
+                    V("cpu_operator_missing", what=kind, opname=o.name)
+        # 4. Vela's own reader accepts the file
+        import tempfile
+        import os
+        from . import compile as C
+
+        with tempfile.TemporaryDirectory(prefix="verif-r-") as d:
+            p = os.path.join(d, "o.tflite")
+            open(p, "wb").write(res["out_bytes"])
+            from ethosu.vela import model_reader
+
+            r_ = C.vela_call(model_reader.read_model, p, model_reader.ModelReaderOptions())
+            if r_["exc"] or (r_["exc_type"] == "SystemExit"):
+                V("vela_reader_rejects_output", what=r_["exc_type"], msg=r_["exc_msg"])
+        out["counters"].setdefault("probe", {})["cpu_ops_compared"] = int(len(cpu_out) > 0)
+        out["counters"]["cpu_ops_matched"] = len(used)
+        out["nontrivial"] = True
+
+    @staticmethod
+    def _contributes(m, op):
+        """does the operator contribute to a model output?"""
+        need = set(m.outputs)
+        changed = True
+        prod = {}
+        for o in m.ops:
+            for t in o.outputs:
+                prod[t] = o
+        seen = set()
+        stack = list(need)
+        while stack:
+            t = stack.pop()
+            if t in seen:
+                continue
+            seen.add(t)
+            o = prod.get(t)
+            if o is not None:
+                if o is op:
+                    return True
+                stack.extend(i for i in o.inputs if i >= 0)
+        return False
